@@ -508,7 +508,11 @@ func readString(dst, b []byte) ([]byte, []byte, error) {
 	var n uint64
 
 	if len(b) == 0 {
-		return b, dst, errors.New("no bytes left reading a string. Malformed data?")
+		// The bytes ran out right where the string starts. Like an integer
+		// or a string cut part way through, that is a field that continues
+		// in the next frame, not a malformed one: the caller decides which
+		// from whether the block has ended.
+		return b, dst, ErrUnexpectedSize
 	}
 
 	mustDecode := b[0]&128 == 128 // huffman encoded
